@@ -173,6 +173,8 @@ def run(ctx, rep):
             problems.append(f"{label}: alias fill-in runs before let substitution")
         if "expand_macros" in seq and "fill_in_let" in seq and seq.index("expand_macros") < seq.index("fill_in_let"):
             problems.append(f"{label}: macros are expanded before let substitution, so an overriding value used only in an argument that the macro body ignores is dropped unchecked")
+        if "expand_macros" in seq and "fill_in_map" in seq and seq.index("fill_in_map") < seq.index("expand_macros"):
+            problems.append(f"{label}: alias fill-in runs before macro expansion, so a qubit that a macro body reaches through a parameter (an alias indexed by a parameter, a register parameter bound to an alias) is still an alias in the result: `macro m a {{ g a[0] }}; map r q[2:4]; m r` keeps `g r[0]` where fill_in_map(expand_macros(..)) gives `g q[2]`")
         if len(seq) != len(set(seq)):
             problems.append(f"{label}: a pass runs twice ({seq})")
     if not decided:
@@ -180,7 +182,7 @@ def run(ctx, rep):
     elif problems:
         rep.violation("C10.1", cons, "; ".join(problems[:3]), f.loc())
     else:
-        rep.ok("C10.1", cons, "for all 8 flag assignments: each pass runs exactly under its flag(s), once, and alias fill-in follows let substitution")
+        rep.ok("C10.1", cons, "for all 8 flag assignments: each pass runs exactly under its flag(s), once, alias fill-in follows let substitution and macro expansion")
 
     # ------------------------------------------------------------ C10.2
     rep.rule("C10.2", "blocks produced by macro substitution are spliced into a same-kind parent (legal nesting)", floor=2)
